@@ -3,12 +3,12 @@
 # written by an independent agent that saw only the property text): in a scratch worktree of /repo HEAD
 #   1. the demonstration passes without the patch, 2. fails with it (the defect is real),
 #   3. ./check <Cxx> <tier> run against the patched worktree must exit 1 with a VIOLATION line (the monitor sees it).
-# Writes /verif/seeded/<Cxx>/result.json. Evidence / replay files of /verif are restored afterwards.
+# SEEDED_DIR=seeded2 selects the second round. Writes <dir>/<Cxx>/result_<tier>.json. Evidence / replay files of /verif are restored afterwards.
 set -u
 PROP="$1"; TIER="${2:-quick}"
 HERE="$(cd "$(dirname "$0")/.." && pwd)"
 source "$HERE/env.sh"
-S="$HERE/seeded/$PROP"
+S="$HERE/${SEEDED_DIR:-seeded}/$PROP"
 WT="/var/tmp/seedwt-$PROP-$$"
 copy_to=$(jq -r .demo.copy_to "$S/meta.json")
 run=$(jq -r .demo.run "$S/meta.json")
